@@ -162,6 +162,88 @@ func analyseDeterminism(as AnalysisSpec, progs []*Program, cs *Contracts, funcs 
 				}
 			}
 		}
+		// state that outlives a compilation: a package-level variable of the module written (or whose map /
+		// slice / struct contents are written) by a reachable function must be one that is reset at the
+		// start of every compilation (args["reset_by"] stores to it) or be listed as harmless
+		if as.Args["reset_by"] != "" {
+			resetFn := p.Funcs[as.Args["reset_by"]]
+			gs := &OblResult{Name: "module/global-state", Kind: "deterministic", Func: as.Args["root"], Backend: "ssa-walker", Result: "discharged", Desc: "every package-level variable written while compiling is re-initialised by " + as.Args["reset_by"] + " (nothing survives from an earlier compilation in the same process)"}
+			ar.Obls = append(ar.Obls, gs)
+			resets := map[*ssa.Global]bool{}
+			if resetFn == nil {
+				gs.Result, gs.Why = "failed", "reset function not found"
+			} else {
+				for _, b := range resetFn.Blocks {
+					for _, in := range b.Instrs {
+						if st, ok := in.(*ssa.Store); ok {
+							if g, ok := st.Addr.(*ssa.Global); ok {
+								resets[g] = true
+							}
+						}
+					}
+				}
+			}
+			rootGlobal := func(v ssa.Value) *ssa.Global {
+				for i := 0; i < 8; i++ {
+					switch x := v.(type) {
+					case *ssa.Global:
+						return x
+					case *ssa.FieldAddr:
+						v = x.X
+					case *ssa.IndexAddr:
+						v = x.X
+					case *ssa.UnOp:
+						v = x.X
+					case *ssa.Field:
+						v = x.X
+					default:
+						return nil
+					}
+				}
+				return nil
+			}
+			for _, key := range reach {
+				fn := p.Funcs[key]
+				if fn == nil || fn == resetFn {
+					continue
+				}
+				for _, b := range fn.Blocks {
+					for _, in := range b.Instrs {
+						var g *ssa.Global
+						switch x := in.(type) {
+						case *ssa.Store:
+							g = rootGlobal(x.Addr)
+						case *ssa.MapUpdate:
+							g = rootGlobal(x.Map)
+						case ssa.CallInstruction:
+							// a map, slice, pointer or channel held in a package-level variable handed to a
+							// call: the callee may write through it
+							if bi, isBuiltin := x.Common().Value.(*ssa.Builtin); isBuiltin && (bi.Name() == "len" || bi.Name() == "cap") {
+								break
+							}
+							for _, a := range x.Common().Args {
+								switch a.Type().Underlying().(type) {
+								case *types.Map, *types.Slice, *types.Pointer, *types.Chan:
+									if u, isLoad := a.(*ssa.UnOp); isLoad {
+										if gg, isG := u.X.(*ssa.Global); isG {
+											g = gg
+										}
+									}
+								}
+							}
+						}
+						if g == nil || g.Pkg == nil || !strings.HasPrefix(g.Pkg.Pkg.Path(), p.ModPrefix) {
+							continue
+						}
+						name := PkgShort(g.Pkg.Pkg.Path()) + "." + g.Name()
+						if resets[g] || strings.Contains(","+as.Args["harmless_globals"]+",", ","+name+",") {
+							continue
+						}
+						gs.Result, gs.Why = "failed", "package-level "+name+" is written at "+p.Pos(in.Pos())+" in "+key+" and not re-initialised by "+as.Args["reset_by"]
+					}
+				}
+			}
+		}
 		ar.Details = append(ar.Details, fmt.Sprintf("%d reachable functions, %d map-range sites", len(reach), nsites))
 	}
 	ar.Summary = "determinism effect over the functions reachable from " + as.Args["root"]
